@@ -92,16 +92,64 @@ def coherent(v, p, w):
     return bad
 
 
+def cond_value(v):
+    if isinstance(v, LinComb): return v.value
+    if isinstance(v, LinCombBool): return v.lc.value
+    return v if isinstance(v, int) else None
+
+
 def run_stmts(prog, regs, ins, outs, st):
     for s in prog:
+        try:
+            run_stmt(s, regs, ins, outs, st)
+        except Exception:
+            if st["exn_ctx"] is None:
+                # guard context of the innermost statement that raised: [(cond register, polarity, cond value)]
+                st["exn_ctx"] = [(q, pol, cond_value(regs.get(q))) for q, pol in st["gstack"]]
+                st["exn_pc"] = st["pc"]
+            raise
+
+
+def run_stmt(s, regs, ins, outs, st):
+    for s in [s]:
         op = s[0]
         st["pc"] += 1
         if op == "guarded":
             c = regs[s[1]]
-            rt.guarded(c)(lambda: run_stmts(s[2], regs, ins, outs, st))()
+            def body():
+                st["gstack"].append((s[1], 1))
+                try:
+                    run_stmts(s[2], regs, ins, outs, st)
+                finally:
+                    st["gstack"].pop()
+            rt.guarded(c)(body)()
             continue
         if op == "ignore":
             rt.ignore_errors(bool(s[1])); continue
+        if op == "probe":
+            g = rt.guard
+            outs.append((10, -1 if g is None else g.value, [])); outs.append((11, 1 if rt._ignore_errors else 0, []))
+            st["probes"].append((st["pc"], None if g is None else g.value, bool(rt._ignore_errors),
+                                 [(q, pol, cond_value(regs.get(q))) for q, pol in st["gstack"]], LinComb.ONE is (g if g is not None else ONE0)))
+            continue
+        if op == "itelazy":
+            d, cn, tb, tr_, fb, fr_ = s[1:]
+            cond = regs[cn]
+            def mk(body, ret, polarity):
+                def f():
+                    st["gstack"].append((cn, polarity))
+                    try:
+                        run_stmts(body, regs, ins, outs, st)
+                    finally:
+                        st["gstack"].pop()
+                    return regs[ret]
+                return f
+            v = br.if_then_else(cond, mk(tb, tr_, 1), mk(fb, fr_, 0))
+            regs[d] = v
+            st["snap"][d] = (plain(v),)
+            st["vals"].append((st["pc"], plain(v)))
+            out_val(v, outs)
+            continue
         d = s[1]
         if op == "input": v = INP[s[2]](ins[s[3]])
         elif op == "const": v = s[2][1] if s[2][0] == "int" else float(s[2][1]) / float(2 ** s[2][2])
@@ -144,10 +192,11 @@ def run_case(case):
     rt.guard = None; rt._ignore_errors = bool(cfg["ign"]); LinComb.ONE = ONE0
     rt.bitlength = cfg["n"]; fx.resolution = cfg["res"]
     w = lambda k: 1 if k == 0 else (R.pubs[k - 1] if k > 0 else R.privs[-k - 1])
-    outs = []; st = {"pc": 0, "coh": [], "w": w, "vals": [], "snap": {}, "mutated": []}
+    outs = []; st = {"pc": 0, "coh": [], "w": w, "vals": [], "snap": {}, "mutated": [], "gstack": [], "probes": [], "exn_ctx": None, "condvals": {}}
     exn = None; gobs = None
+    st["regs"] = {}
     try:
-        run_stmts(case["prog"], {}, case["ins"], outs, st)
+        run_stmts(case["prog"], st["regs"], case["ins"], outs, st)
     except (AssertionError, ValueError, ZeroDivisionError, TypeError, RuntimeError, NotImplementedError, IndexError,
             AttributeError, StopIteration) as e:
         exn = type(e).__name__
@@ -167,7 +216,9 @@ def run_case(case):
            "dig": [D.digest_vars(p, R.kinds, R.pubs, R.privs), D.digest_cons(p, cons), D.digest_outs(p, outs), D.digest_exn(p, exn, cur)],
            "unsat": unsat[:5], "incoherent": st["coh"][:5], "mutated": st["mutated"][:5], "floatbad": st.get("floatbad", False), "pc": st["pc"],
            "shape": [D.digest_cons(p, cons), "".join(R.kinds), D.digest_outs(p, [(t, 0, l) for t, v, l in outs if t > 0])],
-           "vals": st["vals"][:300]}
+           "globals": [rt.guard is None, bool(rt._ignore_errors), LinComb.ONE is ONE0],
+           "final_regs": {str(k): plain(v) for k, v in list(st.get("regs", {}).items())[:200]},
+           "vals": st["vals"][:300], "probes": st["probes"][:50], "exn_ctx": st["exn_ctx"], "exn_pc": st.get("exn_pc")}
     if REAL and case.get("prove"):
         # let the real backend write its artefacts for this trace, in a scratch directory
         import tempfile, shutil, io, contextlib
